@@ -1,6 +1,9 @@
 // ---- frag/enforcement_types.rs : in-repo data types of the channel enforcement state ----
 verus! {
 //@type vls-core/src/tx/tx.rs :: HTLCInfo2 derive=Clone,PartialEq,Eq
+// HTLCInfo2 derives Ord (field order); only the existence of the total order is used (Vec::sort)
+impl PartialOrd for HTLCInfo2 { #[verifier::external_body] fn partial_cmp(&self, other: &Self) -> Option<core::cmp::Ordering> { unimplemented!() } }
+impl Ord for HTLCInfo2 { #[verifier::external_body] fn cmp(&self, other: &Self) -> core::cmp::Ordering { unimplemented!() } }
 //@type vls-core/src/tx/tx.rs :: CommitmentInfo2 derive=Clone,PartialEq
 //@type vls-core/src/policy/validator.rs :: CommitmentSignatures derive=Clone
 //@type vls-core/src/policy/validator.rs :: CounterpartyCommitmentSecrets derive=Clone
